@@ -23,7 +23,15 @@ def _first(ev, lst, key, nested=None):
     n = h["$len"][lst.t]
     NAME = h["name"]
     NESTED = h["nested"]
-    mode = -1 if nested is None else (1 if z3.is_true(z3.simplify(nested.t)) else 0)
+    from pvc.values import VNone
+
+    if nested is None or isinstance(nested, VNone):
+        mode = -1
+    else:
+        sn = z3.simplify(nested.t)
+        if not (z3.is_true(sn) or z3.is_false(sn)):
+            raise ValueError("first_binding: `nested` must be a constant")
+        mode = 1 if z3.is_true(sn) else 0
     fidx = z3.Function(f"first_index{mode}", ELEM_SORT, z3.IntSort(), NAME.sort(), NESTED.sort(), z3.StringSort(), z3.IntSort())
     idx = fidx(E, n, NAME, NESTED, key.t)
     bid = S.CLASSES["Binding"]
